@@ -338,7 +338,7 @@ CHECKS["C14"] = {
 
 CAT_ROWS = ["idem", "skip", "htons", "delay", "setattr", "setflowdef", "probe_uref", "match_attr", "null", "dup", "time_limit", "genaux",
             "buffer", "rate_limit", "qsink", "agg", "chunk", "ts_sync", "ts_check", "ts_align"]
-CAT_HEAVY = {"buffer": 1, "rate_limit": 1, "ts_sync": 1}
+CAT_HEAVY = {"buffer": 1}
 
 def _cat_jobs(oracle, tier, rows=CAT_ROWS, pools=(0, 2)):
     q = tier == "quick"
@@ -349,7 +349,7 @@ def _cat_jobs(oracle, tier, rows=CAT_ROWS, pools=(0, 2)):
             jobs.append(("pipex_cat", ["--row", r, "--oracle", oracle, "--pool", pool, "--depth", d, "--deadline", 75 if q else 840]))
     return jobs
 
-_CAT_BOUNDS = {"quick": "20 catalogue pipes x pool depth {0,2}: every sequence of up to 5 operations (4 for buffer, rate_limit, ts_sync) over the row's alphabet "
+_CAT_BOUNDS = {"quick": "20 catalogue pipes x pool depth {0,2}: every sequence of up to 5 operations (4 for buffer) over the row's alphabet "
                         "(set_flow_def F1/F2/foreign, 4 input shapes incl. empty and 2-segment buffers, set_output S0/S1(rejecting)/NULL, sink answer toggle, flush, "
                         "every option setter x 3-4 values, subpipe alloc/set_output/release, pump dispatch, release), followed by release of everything and a run of the event loop to quiescence",
                "thorough": "same alphabet, one operation deeper"}
